@@ -17,6 +17,40 @@ struct Out {
     stdout: String,
     stderr: String,
 }
+/// C17 "never hangs": a child that is still running after LIMIT_S seconds is killed and reported with its input
+/// (ordinary commands take milliseconds; a 3-digit vanity search on one thread takes seconds).
+const LIMIT_S: u64 = 600;
+fn wait_bounded(mut p: std::process::Child, what: &str) -> std::process::Output {
+    use std::sync::{atomic::{AtomicBool, Ordering}, Arc};
+    let pid = p.id();
+    let done = Arc::new(AtomicBool::new(false));
+    let killed = Arc::new(AtomicBool::new(false));
+    let (d2, k2) = (done.clone(), killed.clone());
+    let t = std::thread::spawn(move || {
+        let t0 = std::time::Instant::now();
+        while !d2.load(Ordering::SeqCst) {
+            if t0.elapsed().as_secs() >= LIMIT_S {
+                k2.store(true, Ordering::SeqCst);
+                let _ = Command::new("kill").args(["-9", &pid.to_string()]).status();
+                return;
+            }
+            std::thread::sleep(std::time::Duration::from_millis(50));
+        }
+    });
+    // read the pipes while waiting (a full pipe would block the child)
+    let o = {
+        let so = p.stdout.take();
+        let se = p.stderr.take();
+        let hso = std::thread::spawn(move || { let mut b = Vec::new(); if let Some(mut s) = so { let _ = std::io::Read::read_to_end(&mut s, &mut b); } b });
+        let hse = std::thread::spawn(move || { let mut b = Vec::new(); if let Some(mut s) = se { let _ = std::io::Read::read_to_end(&mut s, &mut b); } b });
+        let status = p.wait().unwrap();
+        std::process::Output { status, stdout: hso.join().unwrap(), stderr: hse.join().unwrap() }
+    };
+    done.store(true, Ordering::SeqCst);
+    let _ = t.join();
+    assert!(!killed.load(Ordering::SeqCst), "did not terminate within {LIMIT_S} s: {what}");
+    o
+}
 fn run(args: &[&str], env: &[(&str, &str)], stdin: Option<&[u8]>) -> Out {
     let mut c = Command::new(BIN);
     c.args(args).env_remove("MNEMONIC").env_remove("PASSWORD").env_remove("ACCOUNT_INDEX").env_remove("HD_PATH");
@@ -31,7 +65,7 @@ fn run(args: &[&str], env: &[(&str, &str)], stdin: Option<&[u8]>) -> Out {
             let _ = si.write_all(d);
         }
     }
-    let o = p.wait_with_output().unwrap();
+    let o = wait_bounded(p, &format!("{args:?} (stdin {:?})", stdin.map(|s| String::from_utf8_lossy(&s[..s.len().min(200)]).to_string())));
     Out { code: o.status.code(), stdout: String::from_utf8_lossy(&o.stdout).trim().to_string(), stderr: String::from_utf8_lossy(&o.stderr).trim().to_string() }
 }
 fn ok(args: &[&str], env: &[(&str, &str)], stdin: Option<&[u8]>) -> String {
